@@ -8,7 +8,7 @@ LEVEL = "other"
 NEEDS = ("rust",)
 EXHAUSTIVE = {"quick": True, "thorough": True}
 REQUIRED_MONITORS = ["opcode_entries", "register_tables", "constants", "pre_behaviour", "single_addressable_behaviour",
-                     "vector_behaviour", "view_segments", "key_table"]
+                     "vector_behaviour", "view_segments", "key_table", "decoded_operand_widths", "width_and_selector_behaviour"]
 RULE = ("complete comparison of live tables dumped from the RUNNING code: 256 opcode entries (name, condition, reversed "
         "flag, operand shapes+widths) Python OPCODES vs Rust OPCODES; register names/widths/sub-register layout across "
         "arch.SC62015.regs, opcodes.REGISTERS/REG_SIZES, emulator.REGISTER_SIZE/_SUBREG_INFO, Rust mask_for/register_width; "
@@ -103,6 +103,41 @@ def run_shard(spec) -> Result:
         fact(shapes == r["operands"], "opcode_operands", f"{opcode:02X}", {"python": shapes, "rust": r["operands"]})
     res.sample({"opcode": "56", "python": [py_operand_shape(o) for o in OPCODES[0x56][1].ops], "rust": ropc[0x56]["operands"]})
 
+    # ---- 1b. operand widths of DECODED instructions (what the emulator executes) vs the mnemonic's width -----------
+    # MVW/EXW move 2 bytes and MVP/EXP 3 bytes (Rust width_bits_for_kind: 16 / 24): every top-level memory operand that a
+    # decoded instance hands to the lifter must have exactly that width, for every second byte that decodes
+    from .. import states
+    dec = states._dec()
+    want_w = {"MVW": 2, "EXW": 2, "MVP": 3, "EXP": 3}
+    for opcode in range(256):
+        d = OPCODES.get(opcode)
+        cls, opts = d if isinstance(d, tuple) else (d, Opts())
+        name = opts.name or cls.__name__
+        if name not in want_w:
+            continue
+        seen_any = False
+        for b2 in range(0, 256, 1):
+            ins = dec(bytes([opcode, b2, 0x10, 0x20, 0x30, 0x02, 0x00, 0x00]), 0x1000)
+            if ins is None:
+                continue
+            widths = []
+            for o in ins.operands():
+                tn = type(o).__name__
+                if tn.startswith(("IMem", "EMem")):
+                    w = o.width() if callable(getattr(o, "width", None)) else getattr(o, "width", None)
+                    widths.append((tn, w))
+            if not widths:
+                continue
+            seen_any = True
+            res.monitor("decoded_operand_widths")
+            bad = [x for x in widths if x[1] != want_w[name]]
+            if bad or b2 == 0x04:
+                fact(not bad, "decoded_operand_width", f"{opcode:02X}", {"name": name, "b2": b2, "operands": widths,
+                                                                         "want_bytes": want_w[name]})
+            if bad:
+                break
+        if not seen_any:
+            res.count("width_probe_no_memory_operand")
     # ---- 2. registers -------------------------------------------------------------------
     arch = SC62015()
     reg_sizes = {str(k): v for k, v in O.REG_SIZES.items()}
@@ -383,6 +418,35 @@ def behavioural(res, fact):
                  f"{rname}:{opc:02X}:python", {"value": obs["regs"][rname], "Z": obs["FZ"], "want": (want_v, want_z)})
             fact(r["regs"][rname] == want_v and ((r["f"] >> 1) & 1) == want_z, "pointer_register_width_behaviour",
                  f"{rname}:{opc:02X}:rust", {"value": r["regs"][rname], "Z": (r["f"] >> 1) & 1, "want": (want_v, want_z)})
+
+    # (c3) immediate widths by behaviour: every opcode whose table entry has a 20-bit immediate is executed with the unused
+    #      high nibble of the third immediate byte SET; (c4) register selectors of MV/EX r2,r2' / r3,r3' (ED, FD): all 256
+    #      selector bytes.  Both cores must end in the same state (the tables describe ONE architecture).
+    from .c06 import compare as cores_compare
+    from .. import states
+    dec = states._dec()
+    wcases = []
+    for opcode, d in sorted(OPCODES.items()):
+        cls, opts = d if isinstance(d, tuple) else (d, Opts())
+        shapes = [py_operand_shape(o) for o in (opts.ops or [])]
+        name = opts.name or cls.__name__
+        if "Imm(20)" in shapes and not name.startswith(("JP", "CALL")):
+            rest = [0x10] if shapes[0].startswith("IMem") else ([0x04] if shapes[0] in ("Reg3",) else [])
+            code = bytes([opcode] + rest + [0x34, 0x12, 0xF5])
+            wcases.append((f"imm20:{opcode:02X}", mk(code, dict(regs, BA=0x5A7E), dict(base_mem), name, opcode)))
+    for opcode in (0xED, 0xFD):
+        for sel in range(256):
+            rg = dict(regs, BA=0xFEDC, I=0xBA98, X=0x21234, Y=0x35678, U=0x49ABC, S=0x5DEF0)
+            wcases.append((f"sel:{opcode:02X}:{sel:02X}", mk(bytes([opcode, sel]), rg, dict(base_mem), "?", opcode)))
+    rr = rust.run("exec", [dict(c, id=i) for i, (_, c) in enumerate(wcases)])
+    for (what, case), r in zip(wcases, rr):
+        obs = pyexec.run_case(case)
+        if "exc" in obs or dec(bytes.fromhex(case["bytes"]), case["addr"]) is None:
+            continue          # not a valid encoding for Python: nothing to compare (C01/C06 judge rejections)
+        res.monitor("width_and_selector_behaviour")
+        fields, det = cores_compare(case, obs, r)
+        fact(not fields, "width_or_selector_behaviour", what.rsplit(":", 1)[0] if what.startswith("sel") else what,
+             {"case": what, "fields": fields, "detail": {k: det[k] for k in list(det)[:4]}})
 
     # (d) the machine models keep their OWN copy of the interrupt vector address for hardware delivery (timer/key/ON):
     #     run a ROM whose vector at 0xFFFFA points to H1 while other plausible places hold different pointers, deliver a
